@@ -164,7 +164,11 @@ pub fn supervise(prop: &Property, tier: Tier) -> i32 {
         };
         // C20's cases take milliseconds: a worker that makes no progress for 3 minutes is stuck (deadlock = liveness,
         // reported as inconclusive, never as a violation)
-        let watchdog = if prop.id == "C20" { 180 } else { WATCHDOG_SECS };
+        let watchdog = match prop.id {
+            "C20" => 180,
+            "C02" => 300,
+            _ => WATCHDOG_SECS,
+        };
         match wait_with_watchdog(child, &hb, watchdog) {
             ChildEnd::Exit(0) => match std::fs::read_to_string(&out)
                 .ok()
